@@ -327,6 +327,7 @@ class Real:
             elif d is not None:
                 from tempest.state_manager import StateManager
                 other = StateManager.from_dict(d)
+                digest(other, "-")       # settle: a first compute_results() may leave a cache behind (even when it raises)
                 self.others = self.others[-1:] + [(other, digest(other, "-"))]
                 out = ("U", [], None)
         elif kind == "mut" and len(f) == 3 and f[1].isdigit() and f[2] in ("clear", "dup", "nonecur"):
@@ -603,7 +604,7 @@ def model_async(lines, parts=4):
 
 # ------------------------------------------------------------------ suite 1
 def correspond_ops(tier):
-    n = 1800 if tier == "quick" else 30000
+    n = 1500 if tier == "quick" else 30000
     rng = common.rng_for("C17.ops")
     c = Corr("statemanager-ops", "exact (reference model, no arithmetic)")
     seqs = [gen_sequence(rng) for _ in range(n)]
